@@ -51,11 +51,12 @@ Qed.
 Lemma st_eqb_eq a b : st_eqb a b = true -> a = b.
 Proof.
   unfold st_eqb. intros H.
-  destruct (andb_prop _ _ H) as [H123 H4]. destruct (andb_prop _ _ H123) as [H12 H3].
-  destruct (andb_prop _ _ H12) as [H1 H2]. clear H H123 H12.
+  destruct (andb_prop _ _ H) as [H1234 H5]. destruct (andb_prop _ _ H1234) as [H123 H4].
+  destruct (andb_prop _ _ H123) as [H12 H3].
+  destruct (andb_prop _ _ H12) as [H1 H2]. clear H H1234 H123 H12.
   apply pos_eqb_eq in H1. apply bufk_eqb_eq in H2. apply bool_eqb_eq in H3.
-  apply epoch_eqb_eq in H4.
-  destruct a as [p1 b1 g1 e1], b as [p2 b2 g2 e2]. cbn [pc buf gotc bep] in *. subst. reflexivity.
+  apply epoch_eqb_eq in H4. apply bool_eqb_eq in H5.
+  destruct a as [p1 b1 g1 e1 d1], b as [p2 b2 g2 e2 d2]. cbn [pc buf gotc bep ed] in *. subst. reflexivity.
 Qed.
 
 Lemma pair_eqb_eq a b : pair_eqb a b = true -> a = b.
@@ -150,21 +151,21 @@ Proof. destruct p as [| | | | | | | | | | | | | | | | | | | | | | | | | |r]; try
 
 Lemma all_st_complete s : In s all_st.
 Proof.
-  destruct s as [p b g e]. unfold all_st.
+  destruct s as [p b g e d]. unfold all_st.
   apply in_flat_map. exists p. split; [apply all_pos_complete|].
   apply in_flat_map. exists e. split; [apply all_epoch_complete|].
   apply in_flat_map. exists b. split; [destruct b; in_list|].
-  destruct g; in_list.
+  destruct g, d; in_list.
 Qed.
 
 (* ------------------------------------------------------------------ dead states stay dead *)
 Lemma step_dead t c s e : dead s = true -> dead (fst (step_t t c s e)) = true.
 Proof.
-  destruct s as [p b g be]. unfold dead. simpl.
+  destruct s as [p b g be d0]. unfold dead. simpl.
   destruct p; try discriminate; intros _.
   - unfold step_t. simpl pc.
     destruct (negb (wf_event _ e)); [reflexivity|].
-    destruct (getmsg _ _ _ e) as [w|rs|d]; try reflexivity.
+    destruct (getmsg _ _ _ _ e) as [w| |rs|d]; try reflexivity.
     destruct d as [t0|ok|k|]; try destruct t0; reflexivity.
   - reflexivity.
 Qed.
